@@ -21,7 +21,7 @@ import yaml
 import yatiml
 import yatiml.util
 from vlib.common import (SYMBOLIC, install_stubs, note, pick, plain,
-                         slice_no)
+                         slice_no, tier)
 
 install_stubs(composer=False)
 
@@ -433,6 +433,261 @@ def histories_reach(o1: int, o2: int) -> bool:
     return not (ok and o1 == 14 and o2 == 1)
 
 
+
+# ------------------------------------------------ interleaving at callbacks
+# A coarse but real family of schedules: while operation A is suspended at
+# one of the points where yatiml calls back into user code (a recogniser, a
+# savorize/sweeten hook, a constructor, the read() of a source stream, the
+# write() of a sink), a second operation B runs from start to end -- on the
+# same function object, on another function over the same classes, or on any
+# of the operations of _op() -- and then A resumes.  This is what a second
+# thread pre-empting A at that point does.  Pre-emption between two arbitrary
+# bytecodes is outside the claim.
+_Y = {'k': -1, 'n': 0, 'hook': None}
+
+
+def _yield_point():
+    i = _Y['n']
+    _Y['n'] = i + 1
+    if _Y['hook'] is not None and i == _Y['k']:
+        h = _Y['hook']
+        _Y['hook'] = None
+        h()
+
+
+class HSub:
+    def __init__(self, x: int) -> None:
+        _yield_point()
+        self.x = x
+
+    @classmethod
+    def _yatiml_recognize(cls, node: yatiml.UnknownNode) -> None:
+        _yield_point()
+        node.require_attribute('x', int)
+
+    @classmethod
+    def _yatiml_savorize(cls, node: yatiml.Node) -> None:
+        _yield_point()
+
+    @classmethod
+    def _yatiml_sweeten(cls, node: yatiml.Node) -> None:
+        _yield_point()
+
+
+class HDoc:
+    def __init__(self, a: int, s: Optional[HSub] = None,
+                 t: Optional[HSub] = None, u: float = 1.5) -> None:
+        _yield_point()
+        self.a, self.s, self.t, self.u = a, s, t, u
+
+    @classmethod
+    def _yatiml_savorize(cls, node: yatiml.Node) -> None:
+        _yield_point()
+
+    @classmethod
+    def _yatiml_sweeten(cls, node: yatiml.Node) -> None:
+        _yield_point()
+        node.remove_attributes_with_default_values(cls)
+
+
+class _YSink:
+    def __init__(self):
+        self.parts = []
+
+    def write(self, text):
+        _yield_point()
+        self.parts.append(text)
+
+
+class _YSource(io.StringIO):
+    def read(self, size=-1):
+        _yield_point()
+        return super().read(size)
+
+
+HTEXT = ['a: 1\ns: {x: 2}\nt: {x: 3}\nu: 1e3\n',
+         'a: 1\ns: {x: 2}\nt: {x: q}\n',
+         'a: 5\nt:\n  x: 6\n',
+         'a: 5\nzz: 1\n']
+
+
+def _hvalue(i):
+    if i == 0:
+        return HDoc(1, HSub(2), HSub(3), 2.5)
+    if i == 1:
+        return [HDoc(7, None, HSub(8)), 'é', {'k': [True, None, 1.5]}]
+    s = HSub(9)
+    return HDoc(4, s, s)        # shared: JSON refuses it half way
+
+
+def _hfunctions():
+    return {'load': yatiml.load_function(HDoc, HSub),
+            'dumps': yatiml.dumps_function(HDoc, HSub),
+            'json': yatiml.dumps_json_function(HDoc, HSub),
+            'dump': yatiml.dump_function(HDoc, HSub),
+            'jdump': yatiml.dump_json_function(HDoc, HSub)}
+
+
+def _sunk(fn, value, **kw):
+    sink = _YSink()
+    fn(value, sink, **kw)
+    return ''.join(sink.parts)
+
+
+NA, NB_H = 9, 8
+
+
+def _op_a(HF, a):
+    """The suspended operation; its outcome."""
+    if a == 0:
+        return _outcome(lambda: HF['load'](HTEXT[0]))
+    if a == 1:
+        return _outcome(lambda: HF['load'](HTEXT[1]))
+    if a == 2:
+        return _outcome(lambda: HF['dumps'](_hvalue(0)))
+    if a == 3:
+        return _outcome(lambda: HF['json'](_hvalue(0), indent=2))
+    if a == 4:
+        return _outcome(lambda: _sunk(HF['dump'], _hvalue(0)))
+    if a == 5:
+        return _outcome(lambda: _sunk(HF['jdump'], _hvalue(1), indent=2,
+                                      ensure_ascii=False))
+    if a == 6:
+        return _outcome(lambda: HF['load'](_YSource(HTEXT[0])))
+    if a == 7:
+        return _outcome(lambda: HF['json'](_hvalue(2)))
+    return _outcome(lambda: HF['json'](_hvalue(1)))
+
+
+def _op_b(HF, b):
+    """The operation that runs in between; its outcome (None for the
+    operations of _op(), whose effect is judged by the battery)."""
+    if b < NOPS:
+        for k in range(NOPS):
+            if b == k:
+                _op(k)
+        return None
+    b -= NOPS
+    if b == 0:
+        return _outcome(lambda: HF['load'](HTEXT[2]))
+    if b == 1:
+        return _outcome(lambda: HF['load'](HTEXT[3]))
+    if b == 2:
+        return _outcome(lambda: HF['dumps'](_hvalue(1)))
+    if b == 3:
+        return _outcome(lambda: HF['json'](_hvalue(1)))
+    if b == 4:
+        return _outcome(lambda: HF['json'](_hvalue(2), indent=4))
+    if b == 5:
+        return _outcome(lambda: _sunk(HF['jdump'], _hvalue(0)))
+    if b == 6:
+        return _outcome(lambda: yatiml.load_function(HDoc, HSub)(HTEXT[0]))
+    return _outcome(lambda: yatiml.dumps_json_function(HDoc, HSub)(
+        _hvalue(0), indent=1))
+
+
+def _count_points(HF, a):
+    _Y.update(k=-1, n=0, hook=None)
+    _op_a(HF, a)
+    return _Y['n']
+
+
+HF_LONG = _hfunctions()
+_fresh = _hfunctions()
+BASE_A = [_op_a(_fresh, a) for a in range(NA)]
+BASE_B = [_op_b(_fresh, b) for b in range(NOPS, NOPS + NB_H)]
+POINTS = [_count_points(_fresh, a) for a in range(NA)]
+MAXK = max(POINTS)
+KCAP = 8 if tier() == 'quick' else 1000
+assert min(POINTS) >= 2, POINTS
+assert [_op_a(HF_LONG, a) for a in range(NA)] == BASE_A
+assert BASE_A[0][0] == 'value' and BASE_A[1][0] == 'error' \
+    and BASE_A[7][0] == 'error' and BASE_A[5][0] == 'value', BASE_A
+
+
+def _hsnapshot():
+    return (snapshot(), [_class_sig(c) for c in (
+        HF_LONG['load'].loader, HF_LONG['dumps'].dumper,
+        HF_LONG['json'].dumper, HF_LONG['dump'].dumper,
+        HF_LONG['jdump'].dumper)],
+        [sorted((k, _table_sig(v) if isinstance(
+            v, (dict, list, set, str, int, float, bool, type(None))) else '')
+            for k, v in c.__dict__.items() if k != '__slotnames__')
+         for c in (HDoc, HSub)])
+
+
+def _interleave(a, k, b):
+    seen = {}
+    before = _hsnapshot()
+
+    def other():
+        seen['mid'] = _hsnapshot() == before     # no transient write by A
+        seen['b'] = _op_b(HF_LONG, b)
+        seen['ran'] = True
+
+    _Y.update(k=k, n=0, hook=other)
+    got_a = _op_a(HF_LONG, a)
+    _Y.update(k=-1, hook=None)
+    if not seen.get('ran'):
+        return None                 # A has fewer callback points than k
+    ok_mid = seen['mid']
+    ok_a = got_a == BASE_A[a]
+    ok_b = b < NOPS or seen['b'] == BASE_B[b - NOPS]
+    ok_after = _hsnapshot() == before
+    if tier() == 'quick':
+        # light battery: PyYAML pristine, one load and one dump of an
+        # unrelated function, A's own functions again
+        ok_bat = (_pyyaml_probe() == PRISTINE_PROBE
+                  and _pyyaml_tables() == PRISTINE_TABLES
+                  and _outcome(lambda: LONG_LIVED['loadP'](DOCS[0]))
+                  == BASELINE[0]
+                  and _outcome(lambda: LONG_LIVED['jsonP'](
+                      PD(1, PS(2)), indent=2)) == BASELINE[14])
+    else:
+        ok_bat = _battery(LONG_LIVED) == BASELINE
+    ok_bat = ok_bat and [_op_a(HF_LONG, x) for x in (0, 3)] == [
+        BASE_A[0], BASE_A[3]]
+    if not SYMBOLIC:
+        note(suspended_operation=a, at_callback_point=k, other_operation=b,
+             shared_state_untouched_while_suspended=ok_mid,
+             suspended_operation_result_as_alone=ok_a,
+             other_operation_result_as_alone=ok_b,
+             state_afterwards_unchanged=ok_after,
+             later_calls_as_fresh=ok_bat,
+             got=str(got_a)[:300], alone=str(BASE_A[a])[:300],
+             other_got=str(seen.get('b'))[:300])
+    return ok_mid and ok_a and ok_b and ok_after and ok_bat
+
+
+def interleaved(a: int, k: int, b: int) -> bool:
+    """
+    pre: 0 <= a < 9 and 0 <= k < 70 and 0 <= b < 33
+    post: __return__
+    """
+    s = slice_no(-1)
+    if s >= 0 and (a != s // 3 or b % 3 != s % 3):
+        return True
+    for x in range(NA):
+        if a == x and k >= min(POINTS[x], KCAP):
+            return True
+    r = _interleave(a, k, b)
+    return r is not False
+
+
+def interleaved_reach(a: int, k: int, b: int) -> bool:
+    """
+    pre: 0 <= a < 9 and 0 <= k < 70 and 0 <= b < 33
+    post: __return__
+    """
+    if a != 3 or b != NOPS + 3:
+        return True
+    for x in range(NA):
+        if a == x and k >= POINTS[x]:
+            return True
+    r = _interleave(a, k, b)
+    return not (r is True and k == POINTS[3] - 1)
+
+
 CONDITIONS = [
     {'fn': 'histories2', 'slices': list(range(25)), 'quick': 110,
      'thorough': None,
@@ -450,6 +705,27 @@ CONDITIONS = [
      'thorough': 900,
      'bound': 'all histories of <= 3 operations out of 25 (one slice per '
               'first operation), same assertions'},
+    {'fn': 'interleaved', 'slices': list(range(27)), 'quick': 110,
+     'thorough': 300,
+     'bound': 'two operations interleaved at a callback point: operation A '
+              '(9 kinds: load of a valid / an invalid document from a string '
+              'or from a stream, dumps, dumps_json with indent, dump and '
+              'dump_json into a sink object, a JSON dump that is refused half '
+              'way) is suspended at its k-th call-back into user code '
+              '(recogniser, savorize, constructor, sweeten, read() of the '
+              'source, write() of the sink; every k, quick tier: the first 8 points '
+              'of an operation), a second operation B '
+              '(33 kinds: the 25 operations of the histories and 8 on the '
+              'SAME function objects / same classes as A) runs to the end, A '
+              'resumes: while A is suspended every class-level registry is '
+              'as before A started (no transient write), A and B give what '
+              'they give alone, the state afterwards is unchanged and the '
+              'battery equals the fresh-function baseline.  Pre-emption '
+              'between arbitrary bytecodes is outside the claim'},
+    {'fn': 'interleaved_reach', 'quick': 60, 'thorough': 60,
+     'expect': 'REFUTED',
+     'bound': 'reachability twin: a JSON dump suspended at its last sweeten '
+              'hook while another JSON dump of the same function runs'},
     {'fn': 'histories_reach', 'quick': 60, 'thorough': 60,
      'expect': 'REFUTED',
      'bound': 'reachability twin: an aborted JSON dump followed by creating '
